@@ -49,6 +49,7 @@ type ItemResult struct {
 	SampleObl    string
 	IfConverted  int
 	UFCongruence int
+	Summarized    int // calls of scalar-pure leaf functions evaluated by a merged summary (summarize.go)
 	CollisionOnly int // satisfiable only through collisions of uninterpreted functions: not counterexamples
 	Relaxed      int // obligations discharged in the real rounding-error model
 	WallS        float64
@@ -266,7 +267,7 @@ func (ex *Exec) factSimp(st *State, t *Term) *Term {
 }
 
 // keyCases builds the case split "key equals entry i" / "key equals no entry" for a symbolic scalar key.
-func (ex *Exec) keyCases(st *State, mo *MapObj, key *Term) []forkCase {
+func (ex *Exec) keyCases(st *State, mo *MapObj, key Value) []forkCase {
 	c := ex.ctx
 	var cases []forkCase
 	none := c.True
@@ -280,8 +281,9 @@ func (ex *Exec) keyCases(st *State, mo *MapObj, key *Term) []forkCase {
 			continue
 		}
 		cs := forkCase{cond: c.And(mo.Present[i], eq)}
-		if kt, ok := mo.Keys[i].(*Term); ok && kt.IsConst() && mo.Present[i].IsTrue() {
-			cs.bindT, cs.bindV = key, kt.Val
+		keyT, keyIsTerm := key.(*Term)
+		if kt, ok := mo.Keys[i].(*Term); ok && keyIsTerm && kt.IsConst() && mo.Present[i].IsTrue() {
+			cs.bindT, cs.bindV = keyT, kt.Val
 		} else if mo.Present[i].IsTrue() && !eq.IsConst() {
 			cs.trues = []*Term{eq}
 		}
@@ -411,25 +413,34 @@ func (ex *Exec) modelFor(st *State, extra *Term) (string, []ReplayVal) {
 	if extra != nil {
 		as = append(as, extra)
 	}
-	res, model := ex.sol.Check(ex.ctx, as, true)
+	// counterexamples must not live on collisions of the uninterpreted CMAC / AES functions (a real replay would
+	// not show them): prefer a model in which applications with different arguments differ in every 16-bit half.
+	// If no such model exists the counterexample exists only through collisions and is not reported.
+	var g []*Term
+	var evals []*Term
+	if extra != nil {
+		if g = ex.ufGeneric(st); g != nil {
+			G := ex.ctx.True
+			for _, t := range g {
+				G = ex.ctx.And(G, t)
+			}
+			evals = []*Term{G}
+		}
+	}
+	res, model, ev := ex.sol.CheckEval(ex.ctx, as, true, evals)
 	if res == "sat" && len(ex.ctx.Axioms) > 0 {
 		// UF inverse axioms are only brought in to confirm a satisfiable answer (unsat without them stays unsat with them)
 		as = append(as, ex.ctx.Axioms...)
-		res, model = ex.sol.Check(ex.ctx, as, true)
+		res, model, ev = ex.sol.CheckEval(ex.ctx, as, true, evals)
 	}
-	if res == "sat" && extra != nil {
-		// counterexamples must not live on collisions of the uninterpreted CMAC / AES functions (a real replay would
-		// not show them): prefer a model in which applications with different arguments differ in every 16-bit half.
-		// If no such model exists the counterexample exists only through collisions and is not reported.
-		if g := ex.ufGeneric(st); g != nil {
-			r2, m2 := ex.sol.Check(ex.ctx, append(append([]*Term(nil), as...), g...), true)
-			switch r2 {
-			case "sat":
-				model = m2
-			case "unsat":
-				ex.res.CollisionOnly++
-				return "unsat", nil
-			}
+	if res == "sat" && g != nil && !(len(ev) == 1 && ev[0] == 1) {
+		r2, m2 := ex.sol.Check(ex.ctx, append(append([]*Term(nil), as...), g...), true)
+		switch r2 {
+		case "sat":
+			model = m2
+		case "unsat":
+			ex.res.CollisionOnly++
+			return "unsat", nil
 		}
 	}
 	if res != "sat" {
@@ -451,7 +462,7 @@ func (ex *Exec) modelFor(st *State, extra *Term) (string, []ReplayVal) {
 func (ex *Exec) ufGeneric(st *State) []*Term {
 	c := ex.ctx
 	apps := st.ufApps
-	if len(apps) < 2 || len(apps) > 40 {
+	if len(apps) < 2 || len(apps) > 40 || os.Getenv("GOSMT_NO_UFGENERIC") != "" {
 		return nil
 	}
 	var out []*Term
@@ -839,10 +850,7 @@ func (ex *Exec) mapLookup(st *State, m MapV, key Value, zero Value) (Value, *Ter
 		}
 		r, ok := ex.iteValue(hit, mo.Vals[i], res)
 		if !ok {
-			if kt, isT := key.(*Term); isT {
-				panic(needForkCases{ex.keyCases(st, mo, kt)})
-			}
-			throwf("map lookup with symbolic non-scalar key and non-mergeable values")
+			panic(needForkCases{ex.keyCases(st, mo, key)})
 		}
 		res = r
 		found = c.Or(hit, found)
@@ -874,10 +882,7 @@ func (ex *Exec) mapUpdate(st *State, m MapV, key, val Value) {
 		}
 		r, ok := ex.iteValue(hit, val, n.Vals[i])
 		if !ok {
-			if kt, isT := key.(*Term); isT {
-				panic(needForkCases{ex.keyCases(st, mo, kt)})
-			}
-			throwf("map update with symbolic key and non-mergeable values")
+			panic(needForkCases{ex.keyCases(st, mo, key)})
 		}
 		n.Vals[i] = r
 		none = c.And(none, c.Not(hit))
@@ -1429,8 +1434,16 @@ func (ex *Exec) callFunction(st *State, fr *Frame, instr *ssa.Call, fv FuncV, ar
 		ex.finishCall(st, nil, isDefer)
 		return
 	}
+	if !noSummaries {
+		if si := summarizable(fn); si.ok {
+			ex.finishCall(st, ex.summarize(st, fn, si, args), isDefer)
+			return
+		}
+	}
 	ex.pushFrame(st, fn, args, fv.Bind, isDefer)
 }
+
+var noSummaries = os.Getenv("GOSMT_NO_SUMMARIES") != ""
 
 // ---------- operators ----------
 
